@@ -18,11 +18,22 @@ for d in sorted(glob.glob("/verif/seeded/*")):
     notes = open(os.path.join(d, "notes.md")).read() if os.path.exists(os.path.join(d, "notes.md")) else ""
     text = re.sub(r"\s+", " ", re.sub(r"[#*`]", "", notes)).strip()
     prop = "C" + sid[1:3]
+    origin = "written by an independent sub-agent that saw only the property text and a scratch worktree"
+    if "-h" in sid:
+        m = re.findall(r"\bC(\d\d)\b", notes)
+        prop = "C" + m[0] if m else "see notes"
+        origin = "written by an independent sub-agent that saw the 19 property statements and a scratch worktree, asked for the hardest-to-detect change in one source area"
+    old = {}
+    if os.path.exists(os.path.join(d, "meta.json")):
+        try:
+            old = json.load(open(os.path.join(d, "meta.json")))
+        except Exception:
+            old = {}
     fired = r.get("fired", {})
     meta = {
         "id": sid,
         "property_broken": prop,
-        "origin": "written by an independent sub-agent that saw only the property text and a scratch worktree",
+        "origin": origin,
         "what_and_needs": text[:1200],
         "confirmed": {
             "repository_tests_unchanged": r.get("tests_same"),
@@ -33,6 +44,8 @@ for d in sorted(glob.glob("/verif/seeded/*")):
         "checks_run": r.get("props") or "all",
         "caught_by": {k: {"exit": v["exit"], "signatures": [s.split(":")[0] + ":" + s.split(":")[1] if s.count(":") > 1 else s[:80] for s in v.get("signatures", [])][:4]} for k, v in fired.items()},
     }
+    if old.get("disposition"):
+        meta["disposition"] = old["disposition"]
     json.dump(meta, open(os.path.join(d, "meta.json"), "w"), indent=1, ensure_ascii=False)
     caught = ", ".join(f"{k}" + ("" if v["exit"] == 1 else f"(exit {v['exit']})") for k, v in sorted(fired.items())) or "**none**"
     first = text.split(". ")[0][:150]
